@@ -365,6 +365,15 @@ impl Sub for LatticeCheck {
         }
     }
     fn check(&self, case: &TokCase, ctx: &mut Ctx) -> Result<(), String> {
+        self.check_case(case, ctx)?;
+        ctx.sample(|| brief(case));
+        Ok(())
+    }
+}
+
+impl LatticeCheck {
+    /// The oracle proper (without recording a sample: the scale sub-checks render their own compact one).
+    pub fn check_case(&self, case: &TokCase, ctx: &mut Ctx) -> Result<(), String> {
         let files = case.spec.render();
         let user = case.user.as_deref();
         let rd = RefDict::new(&case.spec, user.unwrap_or(&[]));
@@ -493,7 +502,6 @@ impl Sub for LatticeCheck {
                 }
             }
         }
-        ctx.sample(|| brief(case));
         Ok(())
     }
 }
@@ -513,6 +521,7 @@ pub fn run_c02(opts: &Opts) -> Report {
     let mut rep = Report::new("C02", "exploration");
     rep.assumptions = vec![
         "accumulated costs stay inside i32 (≤ 24 characters, |cost| ≤ 65534 per step)".into(),
+        "the scale sub-check uses sentences with a single occurrence of the crowded character (two crowded positions in a row cost 2^32 connection evaluations)".into(),
         "ignore_space=true only on dictionaries meeting the C12 precondition (otherwise the skipped span has no specification)".into(),
         "ties are unspecified: only costs are compared, never which of several optimal paths was returned".into(),
         "candidate generation is C03's concern: optimality is judged over the implementation's own candidate nodes (lattice dump)".into(),
@@ -524,6 +533,9 @@ pub fn run_c02(opts: &Opts) -> Report {
     run_sub(&a, opts, opts.tier.pick(15_000, 300_000), &mut rep);
     run_sub(&b, opts, opts.tier.pick(6000, 120_000), &mut rep);
     run_resources(Which::Optimality, opts, &mut rep);
+    let sc = crate::props::scale::Scale { which: Which::Optimality };
+    crate::props::committed_replays(&sc, opts, &mut rep);
+    run_sub(&sc, opts, opts.tier.pick(48, 800), &mut rep);
     rep
 }
 
@@ -543,6 +555,9 @@ pub fn run_c03(opts: &Opts) -> Report {
     run_sub(&a, opts, opts.tier.pick(15_000, 300_000), &mut rep);
     run_sub(&b, opts, opts.tier.pick(6000, 120_000), &mut rep);
     run_resources(Which::Candidates, opts, &mut rep);
+    let sc = crate::props::scale::Scale { which: Which::Candidates };
+    crate::props::committed_replays(&sc, opts, &mut rep);
+    run_sub(&sc, opts, opts.tier.pick(48, 800), &mut rep);
     rep
 }
 
@@ -552,4 +567,5 @@ pub fn replay(id: &str, path: &std::path::Path) -> Option<i32> {
     crate::props::try_strict(&LatticeCheck { which, exclusive_space: false, resources: false }, id, path)
         .or_else(|| crate::props::try_strict(&LatticeCheck { which, exclusive_space: true, resources: false }, id, path))
         .or_else(|| crate::props::try_strict(&LatticeCheck { which, exclusive_space: false, resources: true }, id, path))
+        .or_else(|| crate::props::try_strict(&crate::props::scale::Scale { which }, id, path))
 }
